@@ -12,8 +12,10 @@ os.environ.setdefault("VERIF_MANIFEST_ONLY", "1")
 BASELINE = ("cd /repo && /venv/bin/python -m pytest -ra -q -p no:cacheprovider --timeout=900 "
             "--continue-on-collection-errors")
 
-SETUP = ("/venv/bin/python -c 'import hypothesis, yaml, bson, cryptography' 2>/dev/null || "
-         "/venv/bin/pip install --no-index --find-links /opt/veriftools/wheels hypothesis")
+SETUP = ("(/venv/bin/python -c 'import hypothesis, yaml, bson, cryptography' 2>/dev/null || "
+         "/venv/bin/pip install --no-index --find-links /opt/veriftools/wheels hypothesis) && "
+         "(PYTHONPATH=/verif/.deps /venv/bin/python -c 'import atheris' 2>/dev/null || "
+         "/venv/bin/pip install -q --no-index --find-links /opt/veriftools/wheels --target /verif/.deps atheris || true)")
 
 NOT_APPLICABLE = {}
 
